@@ -51,20 +51,20 @@ Section SaveLoad.
   Notation fs := (fs bytes).
 
   (** not a detector / callback: TypeError, decided before anything else, file system untouched *)
-  Lemma save_rejects_kind : forall o path pr (f : fs),
-    is_savable (kind_of o) = false -> save o path pr f = (f, Raise TypeError).
-  Proof. intros o path pr f H. unfold save. rewrite H. reflexivity. Qed.
+  Lemma save_rejects_kind : forall w o path pr (f : fs),
+    is_savable (kind_of o) = false -> save w o path pr f = (f, Raise TypeError).
+  Proof. intros w o path pr f H. unfold Persist.save. rewrite H. reflexivity. Qed.
 
   (** protocol outside range(HIGHEST+1) (as Python evaluates [in]): ValueError, file system untouched *)
-  Lemma save_rejects_protocol : forall o path pr (f : fs),
-    is_savable (kind_of o) = true -> proto_in_range pr = false -> save o path pr f = (f, Raise ValueError).
-  Proof. intros o path pr f H1 H2. unfold save. rewrite H1, H2. reflexivity. Qed.
+  Lemma save_rejects_protocol : forall w o path pr (f : fs),
+    is_savable (kind_of o) = true -> proto_in_range pr = false -> save w o path pr f = (f, Raise ValueError).
+  Proof. intros w o path pr f H1 H2. unfold Persist.save. rewrite H1, H2. reflexivity. Qed.
 
-  Lemma rejects_before_write : forall o path pr (f : fs),
+  Lemma rejects_before_write : forall w o path pr (f : fs),
     is_savable (kind_of o) = false \/ proto_in_range pr = false ->
-    exists e, save o path pr f = (f, Raise e) /\ (e = TypeError \/ e = ValueError).
+    exists e, save w o path pr f = (f, Raise e) /\ (e = TypeError \/ e = ValueError).
   Proof.
-    intros o path pr f [H | H].
+    intros w o path pr f [H | H].
     - exists TypeError. split; [apply save_rejects_kind; exact H | left; reflexivity].
     - destruct (is_savable (kind_of o)) eqn:E.
       + exists ValueError. split; [apply save_rejects_protocol; assumption | right; reflexivity].
@@ -73,11 +73,11 @@ Section SaveLoad.
 
   (** after a rejected save, whatever could be loaded from any path before can be loaded
       after, and nothing else: no (usable or unusable) file was written *)
-  Lemma rejected_load_unchanged : forall o path pr (f : fs) q,
+  Lemma rejected_load_unchanged : forall w o path pr (f : fs) q,
     is_savable (kind_of o) = false \/ proto_in_range pr = false ->
-    load q (fst (save o path pr f)) = load q f.
+    load q (fst (save w o path pr f)) = load q f.
   Proof.
-    intros o path pr f q H. destruct (rejects_before_write o path pr f H) as (e & He & _).
+    intros w o path pr f q H. destruct (rejects_before_write w o path pr f H) as (e & He & _).
     rewrite He. reflexivity.
   Qed.
 
@@ -88,29 +88,47 @@ Section SaveLoad.
   Proof. intros H. unfold upd. destruct (String.eqb_spec q p); [contradiction | reflexivity]. Qed.
 
   (** every save, successful or not, leaves all OTHER paths alone *)
-  Lemma save_other_paths : forall o path pr (f : fs) q, q <> path -> fst (save o path pr f) q = f q.
+  Lemma save_other_paths : forall w o path pr (f : fs) q, q <> path -> fst (save w o path pr f) q = f q.
   Proof.
-    intros o path pr f q Hq. unfold save.
+    intros w o path pr f q Hq. unfold Persist.save.
     destruct (is_savable (kind_of o)); cbn [negb fst]; [|reflexivity].
     destruct (proto_in_range pr); cbn [negb fst]; [|reflexivity].
-    destruct (dir_exists path); cbn [negb fst]; [|reflexivity].
-    destruct (proto_index pr) as [p|]; [destruct (picklable o)|]; cbn [fst]; apply upd_other; exact Hq.
+    destruct w.
+    - destruct (dir_exists path); cbn [negb fst]; [|reflexivity].
+      destruct (proto_index pr) as [p|]; [destruct (picklable o)|]; cbn [fst]; apply upd_other; exact Hq.
+    - destruct (proto_index pr) as [p|]; [|reflexivity].
+      destruct (picklable o); [|reflexivity].
+      destruct (dir_exists path); cbn [fst]; [apply upd_other; exact Hq | reflexivity].
+  Qed.
+
+  (** with pickle.dumps BEFORE the open, a save that does not succeed changes nothing at all *)
+  Lemma failed_save_leaves_fs : forall o path pr (f : fs),
+    snd (save DumpsThenWrite o path pr f) <> Ok tt -> fst (save DumpsThenWrite o path pr f) = f.
+  Proof.
+    intros o path pr f. unfold Persist.save.
+    destruct (is_savable (kind_of o)); cbn [negb fst snd]; [|reflexivity].
+    destruct (proto_in_range pr); cbn [negb fst snd]; [|reflexivity].
+    destruct (proto_index pr) as [p|]; [|reflexivity].
+    destruct (picklable o); [|reflexivity].
+    destruct (dir_exists path); cbn [fst snd]; [|reflexivity].
+    intros H. contradiction H. reflexivity.
   Qed.
 
   Hypothesis contract : PickleContract obj picklable bytes empty_file dumps loads.
 
+  Lemma in_range_int p : 0 <= p <= HIGHEST_PROTOCOL -> proto_in_range (PInt p) = true.
+  Proof. intros Hp. cbn [proto_in_range]. apply andb_true_iff; split; apply Z.leb_le; lia. Qed.
+
   (** a detector or callback, a protocol in 0..HIGHEST, a picklable graph: the save
       succeeds and load returns an object equal to the saved one *)
-  Lemma save_then_load : forall o path p (f : fs),
+  Lemma save_then_load : forall w o path p (f : fs),
     is_savable (kind_of o) = true -> 0 <= p <= HIGHEST_PROTOCOL -> dir_exists path = true ->
     picklable o = true ->
-    snd (save o path (PInt p) f) = Ok tt /\ load path (fst (save o path (PInt p) f)) = Ok o.
+    snd (save w o path (PInt p) f) = Ok tt /\ load path (fst (save w o path (PInt p) f)) = Ok o.
   Proof.
-    intros o path p f Hk Hp Hd Hpk. unfold save. rewrite Hk, Hd, Hpk. cbn [negb proto_in_range].
-    replace ((0 <=? p) && (p <=? HIGHEST_PROTOCOL)) with true
-      by (symmetry; apply andb_true_iff; split; apply Z.leb_le; lia).
-    cbn [negb proto_index fst snd]. split; [reflexivity|].
-    unfold Persist.load. rewrite upd_same. apply (proj1 contract); assumption.
+    intros w o path p f Hk Hp Hd Hpk. unfold Persist.save. rewrite Hk, (in_range_int p Hp).
+    destruct w; rewrite Hd, Hpk; cbn [negb proto_index fst snd]; (split; [reflexivity|]);
+      unfold Persist.load; rewrite upd_same; apply (proj1 contract); assumption.
   Qed.
 
   (** F25 shape: an unpicklable graph raises PicklingError AFTER the file was opened: whatever
@@ -118,28 +136,26 @@ Section SaveLoad.
   Lemma save_unpicklable : forall o path p (f : fs),
     is_savable (kind_of o) = true -> 0 <= p <= HIGHEST_PROTOCOL -> dir_exists path = true ->
     picklable o = false ->
-    save o path (PInt p) f = (upd bytes f path (dump_partial o p), Raise PicklingError).
+    save DumpIntoOpenFile o path (PInt p) f = (upd bytes f path (dump_partial o p), Raise PicklingError).
   Proof.
-    intros o path p f Hk Hp Hd Hpk. unfold save. rewrite Hk, Hd, Hpk. cbn [negb proto_in_range].
-    replace ((0 <=? p) && (p <=? HIGHEST_PROTOCOL)) with true
-      by (symmetry; apply andb_true_iff; split; apply Z.leb_le; lia).
+    intros o path p f Hk Hp Hd Hpk. unfold Persist.save. rewrite Hk, (in_range_int p Hp), Hd, Hpk.
     reflexivity.
   Qed.
 
   (** "every non-int protocol is rejected with the file system unchanged" is FALSE of the
-      code: an integral float such as 2.0 passes [in range(6)], the file is opened
+      code as found: an integral float such as 2.0 passes [in range(6)], the file is opened
       (created or truncated) and only then pickle.dump raises TypeError.  What is left is an
       empty file, which load cannot read. *)
   Lemma float_protocol_truncates : forall o path (f : fs) old,
     is_savable (kind_of o) = true -> dir_exists path = true -> f path = Some old ->
     let pr := PFloat 2 true in
     proto_index pr = None /\
-    snd (save o path pr f) = Raise TypeError /\
-    fst (save o path pr f) path = Some empty_file /\
-    load path (fst (save o path pr f)) = Raise OtherError.
+    snd (save DumpIntoOpenFile o path pr f) = Raise TypeError /\
+    fst (save DumpIntoOpenFile o path pr f) path = Some empty_file /\
+    load path (fst (save DumpIntoOpenFile o path pr f)) = Raise OtherError.
   Proof.
     intros o path f old Hk Hd Hold pr.
-    assert (E : save o path pr f = (upd bytes f path empty_file, Raise TypeError)).
+    assert (E : save DumpIntoOpenFile o path pr f = (upd bytes f path empty_file, Raise TypeError)).
     { unfold pr, Persist.save. rewrite Hk, Hd. reflexivity. }
     rewrite E. cbn [fst snd]. repeat split.
     - apply upd_same.
@@ -160,9 +176,10 @@ Section Resume.
   Variable dump_partial : dobj -> Z -> bytes.
   Variable loads : bytes -> res dobj.
   Variable dir_exists : string -> bool.
+  Variable w : write_order.
   Hypothesis contract : PickleContract dobj picklable bytes empty_file dumps loads.
 
-  Definition dsave := save dobj (fun _ => KDetector) picklable bytes empty_file dumps dump_partial dir_exists.
+  Definition dsave := save dobj (fun _ => KDetector) picklable bytes empty_file dumps dump_partial dir_exists w.
   Definition dload := load dobj bytes loads.
 
   (** Save after ANY history [pre], with ANY protocol 0..HIGHEST, then load: the loaded
@@ -182,7 +199,7 @@ Section Resume.
   Proof.
     intros c pre post path p f Hp Hd Hpk.
     destruct (save_then_load dobj (fun _ => KDetector) picklable bytes empty_file dumps dump_partial
-                loads dir_exists contract (c, exec D c pre) path p f eq_refl Hp Hd Hpk) as [Hs Hl].
+                loads dir_exists contract w (c, exec D c pre) path p f eq_refl Hp Hd Hpk) as [Hs Hl].
     split; [exact Hs|]. exists c, (exec D c pre).
     split; [exact Hl|]. split; [reflexivity|]. split; [reflexivity|]. split; [reflexivity|].
     split; [symmetry; apply trace_tail | symmetry; apply exec_app].
